@@ -11,7 +11,7 @@ from __future__ import annotations
 
 import json
 import random
-from typing import Any, List, Tuple
+from typing import Any, Dict, List, Tuple
 from unittest import mock
 
 import numpy as np
@@ -47,12 +47,24 @@ def half_patterns(E: int, M: int, dtype: torch.dtype, rng: random.Random, n: int
     return np.unique(v.float().contiguous().view(torch.int32).numpy().astype(np.int64) & 0x7FFFFFFF)
 
 
+_SHARED: Dict[str, Any] = {}
+
+
 def events_for(E: int, M: int, s_arg: int, pats: np.ndarray, path: str = "quantise", dtype: torch.dtype = torch.float32) -> Tuple[List[List[int]], int]:
     """s_arg = 0 means "default" (all discarded bits).  path: the entry point -- quantise itself, or the straight-through
     wrappers quantise_fwd (forward value) / quantise_bwd (gradient), which format simulation uses."""
     from unit_scaling.formats import FPFormat
 
-    f = FPFormat(E, M, rounding="stochastic", srbits=s_arg)
+    if (E + M + s_arg) % 3 == 1:
+        # FPFormat is a plain mutable dataclass: ONE long-lived stochastic format whose fields are re-assigned after it has been
+        # used (an srbits sweep that reuses the object) -- anything memoised on the object after its first quantise would be stale
+        f = _SHARED.get("f")
+        if f is None:
+            f = _SHARED["f"] = FPFormat(5, 2, rounding="stochastic", srbits=3)
+            f.quantise(torch.tensor([1.0, 300.0, 1e9]))
+        f.exponent_bits, f.mantissa_bits, f.srbits = E, M, (s_arg if s_arg else 23 - M)
+    else:
+        f = FPFormat(E, M, rounding="stochastic", srbits=s_arg)
     s = f.srbits
     nd = 1 << s
     x1 = quant.to_tensor(pats)
